@@ -132,11 +132,18 @@ def shape(tok):
     return _HASH.sub("#", tok)
 
 
-def same_shape(model_toks, impl_toks):
-    """as same_trace, comparing shapes only: for properties that do not speak about sample values"""
+def same_shape(model_toks, impl_toks, upto_crash=False):
+    """as same_trace, comparing shapes only: for properties that do not speak about sample values.
+    upto_crash: stop at the first call on which the implementation panicked, hung or aborted (a crash is C01's and C13's
+    business; the properties that relate runs of the implementation to each other have nothing to compare there)"""
     if model_toks is None or impl_toks is None:
         return False
-    return same_trace([shape(t) for t in model_toks], [shape(t) for t in impl_toks])
+    m, i = [shape(t) for t in model_toks], [shape(t) for t in impl_toks]
+    if upto_crash:
+        cut = next((j for j, t in enumerate(i) if t.split(" ")[0].split(":")[0] in ("panic", "hang", "abort", "missing")), None)
+        if cut is not None:
+            m, i = m[:cut], i[:cut]
+    return same_trace(m, i)
 
 
 def same_trace(model_toks, impl_toks):
